@@ -39,7 +39,10 @@ vStr = "héllo"
 vEmpty = ""
 vList = [1, "a", nil, [2]]
 vEList = []
-vMap = {"a": 1, "b": nil}
+vMap = {"a": 1, "b": nil, "l": [1], "m": {}}
+vIStruct = make(struct{A interface})
+vIStruct.A = [1]
+vBoxed = [[1, 2], {"k": 1}, vIStruct]
 vTSlice = make([]int64, 2)
 vTStr = []string{"x", "y"}
 vPSlice = make([]*int64, 1)
@@ -60,7 +63,7 @@ module vMod { x = 1; func f() { return x } }
 
 var c01Operands = []string{"vNil", "vTrue", "vInt", "vNeg", "vBig", "vMax", "vFloat", "vStr", "vEmpty", "vList", "vEList", "vMap",
 	"vTSlice", "vTStr", "vPSlice", "vTMap", "vStruct", "vPtr", "vPStruct", "vChan", "vIChan", "vPChan", "vFunc", "vFunc0", "vFuncV", "vFunc5",
-	"vMod", "vPSlice[0]", "gId", "gAdd", "gVar", "gTyped", "gPanicErr", "gPanicStr", "gPanicVal", "gErr", "gMulti", "gApply", "gApply2",
+	"vMod", "vPSlice[0]", "vList[3]", "vMap.l", "vMap.m", "vBoxed[0]", "vBoxed[1]", "vBoxed[2]", "vIStruct", "gId(vList)", "gId(vMap)", "vIStruct.A", "gId", "gAdd", "gVar", "gTyped", "gPanicErr", "gPanicStr", "gPanicVal", "gErr", "gMulti", "gApply", "gApply2",
 	"0", "1", "-1", "2", "1.5", `"s"`, `""`, "nil", "true", "[]", "{}", "[1, 2]", `{"k": 1}`, "vList[0]", "vMap.a", "vMod.x", "undefinedName",
 	"func(){ return 1 }", "func(a...){ return a }", "9223372036854775807", "4611686018427387904", "make([]int64, 2)", "new(int64)", "*vPtr", "&vInt",
 	"vStruct.A", "vStruct.C", "vStruct.P", "len(vList)", "vFunc(1)", "gId(vPtr)", "gId(vChan)"}
@@ -87,6 +90,11 @@ var c01Templates = []string{
 	"$A <- $B", "<- $A", "x = <- $A", "x, ok = <- $A", "$A <- <- $B", "close($A)", "close($A); close($A)", "close($A); $A <- $B", "c = make(chan int64); close(c); c <- $A", "c = make(chan interface, 1); c <- $A; <- c",
 	"c = make(chan *int64, 1); c <- vPSlice[0]; for x in c { y = x; break }; y", "c = make(chan *int64, 1); c <- vPSlice[0]; x = <- c; *x", "for x in vPSlice { y = x }; *y", "*vPSlice[0]", "*vPSlice[0] = $A",
 	"delete($A)", "delete($A, $B)", "delete($A, true)", "delete(\"x\")", "import($A)", "$A + [nil]", "[]int64{4, 5} + $A", "$A + $B + $C", "$A * 9223372036854775807", "vStr * $A", "vStr[$A] = $B", "vStr[$A:$B]",
+	"$A[$B] = $C; delete($A, $B); $A[$B]", "{$A: 1, $B: 2}", "map[interface]interface{$A: $B}", "m = {}; m[$A] = 1; m[$A]; delete(m, $A)", "x = $A in $B",
+	// script goroutines sharing nothing but plain variables and modules (the environment's own locking is in play)
+	"go func(){ for i = 0; i < 300; i++ { gshared = i } }(); for j = 0; j < 300; j++ { y = vMod; gshared = j; z = gshared }",
+	"go func(){ for i = 0; i < 200; i++ { var t = i; gs2 = t } }(); go func(){ for i = 0; i < 200; i++ { y = vMod } }(); for j = 0; j < 200; j++ { module mm { q = j } }",
+	"f = func(){ for i = 0; i < 200; i++ { gcnt = i; delete(\"gcnt\") } }; go f(); go f(); for j = 0; j < 200; j++ { gcnt = j; x = gcnt ?? 0 }",
 	"keys($A)", "range($A)", "range($A, $B)", "range($A, $B, $C)", "typeOf($A)", "kindOf($A)", "toInt($A)", "toFloat($A)", "toString($A)", "toBool($A)", "toChar($A)", "toRune($A)", "toBoolSlice($A)", "toStringSlice($A)",
 	"toIntSlice($A)", "toFloatSlice($A)", "toByteSlice($A)", "toRuneSlice($A)", "toDuration($A)", "defined($A)", "println()", "print()", "printf($A)", "load($A)",
 	"p = new(int64); *p = $A; *p", "p = new(string); *p = $A", "p = &$A; *p = $B; *p", "x = $A; p = &x; *p", "s = make(struct{A int64}); s.A = $A; s", "s = new(struct{A []int64}); s.A = $A", "s = make([]struct{A int64}, 1); s[0].A = $A",
@@ -195,7 +203,7 @@ func c01Mutate(r *rand.Rand, src string) string {
 
 // c01Fixed are the inputs of every crash seen on the pinned tree (all must stay silent once repaired).
 var c01Fixed = []string{
-	"var a =", "x = 1; *x = 2", "vFunc(...)", "f = func(a){ return a }; f(...)", "gAdd([1, \"a\"]...)", "gAdd([1, 2]...)", "[]int64{4, 5} + [nil]",
+	"var a =", "x = 1; *x = 2", "a = [[1, 2]]; m = {}; m[a[0]] = 1", "a = [[1, 2]]; {a[0]: 1}", "a = [{}]; m = {}; delete(m, a[0])", "a = [[1]]; m = {}; m[a[0]]", "a = <", "a, ok = <", "vFunc(...)", "f = func(a){ return a }; f(...)", "gAdd([1, \"a\"]...)", "gAdd([1, 2]...)", "[]int64{4, 5} + [nil]",
 	"p = new(int64); *p = \"s\"", "a = make([]*int64, 1); for x in a { y = x }; y", "a = make([]*int64, 1); *a[0]",
 	"c = make(chan *int64, 1); c <- make([]*int64, 1)[0]; for x in c { y = x; break }; y", "\"s\" * 9223372036854775807", "a = 1; make(a.b)", "a = {\"b\": 1}; make(a.b)",
 	"go gPanicErr(1)", "go gPanicVal(1)", "go func(){ [1][5] }()", "go func(a){ a[0] }(1)", "go vFunc5(1)", "go gAdd(1)", "go gApply(func(){ throw 1 })", "go gAdd(vList...)",
@@ -221,7 +229,8 @@ func init() {
 				Assumptions: []string{"stack/memory exhaustion and concurrent map access between script goroutines are classified from the runtime's fatal-error text and excluded, as the statement says",
 					"allocation sizes between 10^4 and 2^48 and range() over huge spans are never generated (they would exhaust memory, which is outside the guarantee)",
 					"the packages tables are not linked into this worker: import() cannot reach os.Exit/exec/sockets"},
-				Phases: []fw.Phase{{Name: "fuzz", Cases: n, Chunk: 25, TimeoutS: 600, MemMB: 6144}},
+				Phases: []fw.Phase{{Name: "fuzz", Cases: n, Chunk: 25, TimeoutS: 600, MemMB: 6144},
+					{Name: "goroutines", Cases: n / 20, Chunk: 5, TimeoutS: 600, MemMB: 6144}},
 			}
 		},
 		Init: func(w *wk.Worker) {
@@ -236,6 +245,19 @@ func init() {
 			}
 		},
 		Run: func(c *wk.Case) {
+			if c.Phase == "goroutines" {
+				// script goroutines that share nothing but plain variables and modules
+				// (never a script container): only the interpreter's own state is contended
+				for rep := 0; rep < 6; rep++ {
+					n1, n2 := 100+c.Rng.Intn(400), 100+c.Rng.Intn(400)
+					tpl := c01GoroutineScripts[c.Rng.Intn(len(c01GoroutineScripts))]
+					src := strings.ReplaceAll(strings.ReplaceAll(tpl, "$N", fmt.Sprint(n1)), "$M", fmt.Sprint(n2))
+					old := runtime.GOMAXPROCS([]int{2, 4, 16}[c.Rng.Intn(3)])
+					c01RunOne(c, src, 3*time.Second)
+					runtime.GOMAXPROCS(old)
+				}
+				return
+			}
 			cor := corpus.Scripts()
 			var scripts []string
 			if c.Index == 0 {
@@ -273,7 +295,7 @@ func init() {
 				if len(src) > 20000 {
 					continue
 				}
-				c01RunOne(c, src)
+				c01RunOne(c, src, 150*time.Millisecond)
 			}
 		},
 	})
@@ -290,11 +312,20 @@ func c01Contain(src string) string {
 	return src
 }
 
-func c01RunOne(c *wk.Case, src string) {
+var c01GoroutineScripts = []string{
+	"go func(){ for i = 0; i < $N; i++ { gshared = i } }()\nfor j = 0; j < $M; j++ { y = vMod; gshared = j; z = gshared }",
+	"go func(){ for i = 0; i < $N; i++ { var t = i; gs2 = t } }()\ngo func(){ for i = 0; i < $N; i++ { y = vMod } }()\nfor j = 0; j < $M; j++ { module mm { q = j } }",
+	"f = func(){ for i = 0; i < $N; i++ { gcnt = i; delete(\"gcnt\") } }\ngo f()\ngo f()\nfor j = 0; j < $M; j++ { gcnt = j; x = gcnt ?? 0 }",
+	"done = make(chan int64, 4)\nw = func(id){ for i = 0; i < $N; i++ { v = id * i; s = \"x\" + i; w2 = vMod.x }; done <- id }\ngo w(1)\ngo w(2)\ngo w(3)\nfor j = 0; j < $M; j++ { x = vMod; make(type T, j) }\n<- done\n<- done\n<- done",
+	"go func(){ for i = 0; i < $N; i++ { func tmp(){ return i }; tmp() } }()\nfor j = 0; j < $M; j++ { func tmp2(a){ return a }; tmp2(j); y = vMod }",
+	"module m1 { a = 1; func f(){ return a } }\ngo func(){ for i = 0; i < $N; i++ { m1.a = i } }()\nfor j = 0; j < $M; j++ { c = m1; c.f(); m1.f() }",
+}
+
+func c01RunOne(c *wk.Case, src string, watchdog time.Duration) {
 	src = c01Contain(src)
 	e := c01NewEnv()
 	base := runtime.NumGoroutine()
-	ctx, cancel := context.WithTimeout(context.Background(), 150*time.Millisecond)
+	ctx, cancel := context.WithTimeout(context.Background(), watchdog)
 	c.Begin(src)
 	_, perr, po := ank.Parse(src)
 	var o ank.Out
